@@ -62,7 +62,7 @@ c.log('design: TSTable.tla %d states, Visibility.tla %d states' % (d.distinct, v
 
 # ---- 2. real concurrent executions -> traces -> TLC ----
 runs = 2 if c.quick else 8
-millis = 3500 if c.quick else 12000
+millis = 2500 if c.quick else 10000
 rnd = random.Random(c.seed)
 traces, events, stats_all, samples = 0, 0, {}, []
 selftest = {}
@@ -76,8 +76,9 @@ for i in range(runs):
         c.inconclusive('; '.join(res['inconclusive'][:3]))
     for vv in res['violations']:
         c.report(vv['signature'], vv['detail'], {'cfg': cfg, 'harness': 'eng/stress'})
-    ll = open(life).read().splitlines()
-    vl = open(vis).read().splitlines()
+    cap = 4000 if c.quick else 15000   # a prefix of a trace is a trace: bound the validation time
+    ll = open(life).read().splitlines()[:cap]
+    vl = open(vis).read().splitlines()[:cap]
     os.remove(life); os.remove(vis)
     for k2, v2 in res['stats'].items():
         stats_all[k2] = stats_all.get(k2, 0) + v2
